@@ -1,7 +1,8 @@
 (* C10 — any t or more trustees reconstruct; Lagrange coefficients interpolate at zero. *)
 From Coq Require Import ZArith Znumtheory List.
 From Strand Require Import Base.ZUtil Base.Poly Model.Outcome Model.Backend Model.ZBackend Model.Zkp Model.Shuffler
-  Model.Keymaker Model.Exec Proofs.Laws Proofs.ZLaws Proofs.ZInst Proofs.ThresholdP.
+  Model.Keymaker Model.Exec Proofs.Laws Proofs.ZLaws Proofs.ZInst Proofs.ThresholdP Proofs.PrimeCerts
+  Base.ZpField Base.Edwards Model.Ristretto Model.RistrettoFast Model.RBackend Proofs.RistrettoGroup Proofs.EdwardsBackend.
 Import ListNotations.
 Open Scope Z_scope.
 
@@ -42,3 +43,18 @@ Example C10_nonvacuous :
   let B := ZB K_ref Malachite (mkP 23) in
   lagrange B 2 [1; 2; 4] = Ok 20 /\ lagrange B 4 [4; 2; 1] = Ok 4.
 Proof. vm_compute. auto. Qed.
+
+(* the curve25519 Edwards group with the ristretto scalar ring (l prime by certificate): threshold combination
+   without hypotheses *)
+Theorem C10_edwards_group : forall (K : Kernel) (present coeffs : list Z) (t : nat) (g_r : E (AB K)) (lam share : Z -> Z),
+  memA g_r -> Forall (fun x => 0 < x < ell) present -> NoDup present ->
+  (1 <= t)%nat -> (t <= length present)%nat -> coeffs <> [] -> Forall (fun c => 0 <= c) coeffs ->
+  (forall i, In i present -> lagrange (AB K) i present = Ok (lam i)) ->
+  (forall i, In i present -> eval_poly (AB K) i t coeffs = Ok (share i)) ->
+  prodp (AB K) (map (fun i => b_pow (AB K) (b_pow (AB K) g_r (share i)) (lam i)) present)
+  = b_pow (AB K) g_r (nth 0 coeffs 0).
+Proof.
+  intro K. exact (threshold_factor_combination (AB K) memA (AB_laws K) (AB_from_u64_ok K) (AB_sub_mod_ok K)
+                    (AB_xinvq_ok K) ell_prime).
+Qed.
+Print Assumptions C10_edwards_group.
